@@ -114,6 +114,11 @@ void clearFaults();
 // Then the first file the program opens is handed descriptor 0, and whatever reads "standard
 // input" reads that file (at the shared offset) for as long as it stays open; with nothing
 // readable on descriptor 0 a read fails, which the program sees as end of input.
+// A path may be a pipe instead of a file (a FIFO, or /dev/stdout into a pipeline): it can be opened for
+// writing, takes bytes in order, and cannot be positioned.  drainPipe() returns what was written.
+void makePipe(const std::string &path);
+bool isPipe(const std::string &path);
+std::string drainPipe(const std::string &path);
 void setStdinClosed(bool closed);
 bool stdinClosed();
 long readFd0(char *buf, size_t n);     // -1: nothing readable there (EBADF); 0: end of that file
